@@ -8,6 +8,7 @@ CONSTANTS
   DevD6 = FALSE
   DevD7 = FALSE
   DevD14 = FALSE
+  DevGiveUp = FALSE
 INVARIANTS TypeOK P_C13 P_C13_Immediate
 VIEW MCView
 CHECK_DEADLOCK FALSE
